@@ -937,6 +937,10 @@ class ScriptedStrategy(BaseStrategy):
                         if i in act.get("execute_after", ()):
                             n = t.execute()
                             self._log({"op": "execute"}, result=n)
+                        if act.get("raise_after") == i:
+                            # fault injection in the middle of a callback, inside the transaction block
+                            self.tr.injected.append({"seq": self.tr.nseq(), "tick": self.tr.tick, "strategy": self.name, "kind": "in_tx", "n": i})
+                            raise ValueError("injected inside transaction block of %s" % self.name)
             elif op == "raise":
                 raise (FlumineException if act.get("flumine") else ValueError)("injected by script")
         except FlumineException as e:
